@@ -23,7 +23,11 @@ EXPLANATION = (
 RULE_TEXT = (
     "C06.a = C04.d; C06.b for each kind: _last_sql is a single SELECT/set operation; C06.c effects of the "
     "description getter: no store on self / the connection, DESCRIBE runs on a cursor created by conn.cursor(), "
-    "describe() goes through execute; C06.d select-list types of own templates subset of duckdb_to_sf_type keys."
+    "describe() goes through execute, DESCRIBE runs with the recorded parameters and the recorded text is re-parsed in "
+    "the DuckDB dialect; C06.d select-list types of own templates subset of duckdb_to_sf_type keys; C06.e regex AST of "
+    "the DECIMAL(p,s) pattern captures whole digit runs; C06.f describe_as_rowtype(type name) == oracle (type, "
+    "precision, scale, length); C06.g (in C04.d) user parameters recorded only with the user's statement; C06.h "
+    "describe() hands positional rows to the conversion whatever the row format."
 )
 TRUSTED = ["CPython ast", "DuckDB DESCRIBE accepts exactly one query", "COUNT_IF/SUM yield HUGEINT, COUNT yields BIGINT, integer literals INTEGER"]
 
